@@ -407,7 +407,11 @@ func H_C09_topoSort(n int, fixedOrder int) {
 		cyclic = cyclic || reach[i][i]
 	}
 	p := build()
+	// C08: sorting 1..5 calls needs a few thousand steps; beyond the bound the
+	// compiler does not terminate promptly
+	verifStepLimit(300000)
 	err := p.topoSort()
+	verifStepLimit(0)
 	verifCover("sorted")
 	if cyclic {
 		verifCover("cyclic dependency")
